@@ -2,12 +2,12 @@
    runner, the queue is Idle and empty: no operation is left suspended *)
 From stdpp Require Import list numbers option.
 From RecordUpdate Require Import RecordUpdate.
-From L2 Require Import Model Base Own Jobs Shape DwInv Pool Wake WakeInv WakeLem WakeStep1 WakeStep.
+From L2 Require Import Model Base Own Jobs Shape DwInv Pool Fut Wake WakeInv WakeLem WakeStep1 WakeStep.
 #[global] Unset Lia Cache.
 
 Record all_cond (T : ftables) : Prop := { ac_own : own_cond T; ac_jobs : jobs_cond T; ac_wake : wake_cond T }.
 Record Inv_all (s : state) : Prop := {
-  ia_own : Inv_own s; ia_jobs : Inv_jobs s; ia_shape : Inv_shape s; ia_dw : Inv_dw s; ia_pool : Inv_pool s; ia_wake : Inv_wake s }.
+  ia_own : Inv_own s; ia_jobs : Inv_jobs s; ia_shape : Inv_shape s; ia_dw : Inv_dw s; ia_pool : Inv_pool s; ia_fut : Inv_fut s; ia_wake : Inv_wake s }.
 
 Lemma wake_dw_cond T : wake_cond T -> dw_cond T.
 Proof. intros HW. split. intros st. rewrite (wc_dw_wake _ HW). by destruct st. Qed.
@@ -26,18 +26,19 @@ Proof.
   destruct (init_stacks _ _ _ _ _ Hc) as [->|[sc ->]]; apply elem_of_list_singleton in Hin as ->; done.
 Qed.
 Lemma init_all scripts npool nev : Inv_all (init scripts npool nev).
-Proof. split; [apply init_own|apply init_jobs|apply init_shape|apply init_dw|apply init_pool|apply init_wake]. Qed.
+Proof. split; [apply init_own|apply init_jobs|apply init_shape|apply init_dw|apply init_pool|apply init_fut|apply init_wake]. Qed.
 
 Section Reach.
   Context (T : ftables) (HA : all_cond T).
   Lemma step_all s a s' : Inv_all s -> step T s a = Some s' -> Inv_all s'.
   Proof.
-    intros [H1 H2 H3 H4 H5 H6] Hs. destruct HA as [A1 A2 A3]. split.
+    intros [H1 H2 H3 H4 H5 H7 H6] Hs. destruct HA as [A1 A2 A3]. split.
     - by eapply step_own.
     - by eapply step_jobs.
     - by eapply step_shape.
     - eapply step_dw; [by apply wake_dw_cond|done|done].
     - by eapply step_pool_inv.
+    - by eapply step_fut_inv.
     - by eapply step_wake_inv.
   Qed.
   Theorem reachable_all scripts npool nev tr s : run T (init scripts npool nev) tr = Some s -> Inv_all s.
@@ -167,10 +168,19 @@ End Terminal.
 (* C06, terminal form, for all programs, event timings and schedules, whoever ran the queue (pool thread, sync caller, polling task) *)
 Theorem C06_terminal T (HA : all_cond T) scripts npool nev tr s :
   npool >= 1 -> run T (init scripts npool nev) tr = Some s ->
-  terminal T s -> no_panic T s -> all_fired s ->
+  terminal T s -> all_fired s ->
   s.(qs) = Idle /\ s.(jobs) = [] /\ held s = [].
 Proof.
-  intros Hn Hr Ht Hp Hf. eapply terminal_idle_empty; try done.
-  - by eapply reachable_all.
+  intros Hn Hr Ht Hf. pose proof (reachable_all T HA _ _ _ _ _ Hr) as HI.
+  eapply terminal_idle_empty; try done.
+  - intros a. apply fut_no_panic; [apply (ac_own _ HA)|apply (ia_own _ HI)|apply (ia_fut _ HI)].
   - by eapply reachable_has_pool.
+Qed.
+
+(* C07: the code's panics (second take of a result, Panic arms of the tables, unexpected state in run_one_job_now) are unreachable *)
+Theorem no_panic_reachable T (HA : all_cond T) scripts npool nev tr s a :
+  run T (init scripts npool nev) tr = Some s -> would_panic T s a = false.
+Proof.
+  intros Hr. pose proof (reachable_all T HA _ _ _ _ _ Hr) as HI.
+  apply fut_no_panic; [apply (ac_own _ HA)|apply (ia_own _ HI)|apply (ia_fut _ HI)].
 Qed.
